@@ -135,7 +135,7 @@ func runMC(ctx *vrun.Ctx, t tier) error {
 			ctx.SetExtra("tlc_"+m.name, map[string]any{"distinct": res.Distinct, "generated": res.Generated, "depth": res.Depth, "wall_s": res.WallS})
 			if m.coverage {
 				audited = true
-				for a, n := range res.ActionCount {
+				for a, n := range actionCounts(res.Output) {
 					seenAction[a] += n
 				}
 			}
@@ -159,6 +159,24 @@ func runMC(ctx *vrun.Ctx, t tier) error {
 		}
 	}
 	return nil
+}
+
+var reCov = regexp.MustCompile(`(?m)^<(\w+) line \d+, col \d+ to line \d+, col \d+ of module Peer>: (\d+):(\d+)`)
+
+// actionCounts sums TLC's per-action coverage (distinct states found through
+// the action) over all instances of an action definition; the last coverage
+// report TLC prints is the final one.
+func actionCounts(out string) map[string]int64 {
+	if i := strings.LastIndex(out, "The coverage statistics at"); i >= 0 {
+		out = out[i:]
+	}
+	m := map[string]int64{}
+	for _, g := range reCov.FindAllStringSubmatch(out, -1) {
+		var n int64
+		fmt.Sscan(g[3], &n)
+		m[g[1]] += n
+	}
+	return m
 }
 
 func tail(s string, n int) string {
@@ -467,14 +485,14 @@ type verdict struct {
 // extractPrinted returns the values TLC printed that start with << "tag",
 func extractPrinted(out, tag string) []tla.Value {
 	var vals []tla.Value
-	needle := `<< "` + tag + `"`
+	re := regexp.MustCompile(`<<\s*"` + tag + `"`)
 	pos := 0
 	for {
-		i := strings.Index(out[pos:], needle)
-		if i < 0 {
+		loc := re.FindStringIndex(out[pos:])
+		if loc == nil {
 			break
 		}
-		start := pos + i
+		start := pos + loc[0]
 		depth := 0
 		end := -1
 		inStr := false
@@ -728,6 +746,8 @@ func validateAll(ctx *vrun.Ctx, t tier, traces []*Trace) error {
 	stuck := make([]int, len(traces))
 	var mu sync.Mutex
 	var firstErr error
+	rejected := 0
+	const maxRejected = 3 // every rejected trace is a violation already; do not spend the budget on more
 	par := 5
 	sem := make(chan struct{}, par)
 	var wg sync.WaitGroup
@@ -739,6 +759,15 @@ func validateAll(ctx *vrun.Ctx, t tier, traces []*Trace) error {
 			defer func() { <-sem }()
 			lo := j.lo
 			for lo < j.hi {
+				mu.Lock()
+				stop := rejected >= maxRejected || firstErr != nil
+				mu.Unlock()
+				if stop {
+					for ; lo < j.hi; lo++ {
+						stuck[lo] = -1
+					}
+					return
+				}
 				br, _, err := validateBatch(ctx, traces[lo:j.hi], false)
 				if err != nil {
 					mu.Lock()
@@ -773,6 +802,9 @@ func validateAll(ctx *vrun.Ctx, t tier, traces []*Trace) error {
 					}
 					stuck[lo] = k
 					lo++
+					mu.Lock()
+					rejected++
+					mu.Unlock()
 				}
 			}
 		}(j)
@@ -781,15 +813,109 @@ func validateAll(ctx *vrun.Ctx, t tier, traces []*Trace) error {
 	if firstErr != nil {
 		return firstErr
 	}
-	accepted := 0
+	if err := negativeControls(ctx, traces, verdicts); err != nil {
+		return err
+	}
+	accepted, skipped := 0, 0
 	for i, tr := range traces {
+		if verdicts[i] == nil && stuck[i] < 0 {
+			skipped++
+			continue
+		}
 		if verdicts[i] != nil {
 			accepted++
 		}
 		judge(ctx, tr, verdicts[i], stuck[i])
 	}
-	ctx.AddTraces(int64(len(traces)))
+	if skipped > 0 {
+		ctx.Logf("%d traces not validated: %d traces were already rejected by the specification", skipped, rejected)
+		ctx.SetExtra("traces_not_validated_after_rejections", skipped)
+	}
+	ctx.AddTraces(int64(len(traces) - skipped))
 	ctx.SetExtra("traces_accepted_by_spec", accepted)
+	return nil
+}
+
+// negativeControls shows on every run that the binding is not vacuous: an
+// accepted trace is corrupted in three ways (wrong negotiated version reported
+// at the end, a done signal removed, two queued messages swapped on the wire)
+// and TLC must reject each corrupted copy.
+func negativeControls(ctx *vrun.Ctx, traces []*Trace, verdicts []*verdict) error {
+	clone := func(t *Trace) *Trace {
+		c := *t
+		c.Events = append([]Event(nil), t.Events...)
+		return &c
+	}
+	var controls []*Trace
+	var names []string
+	have := map[string]bool{}
+	for i, tr := range traces {
+		if verdicts[i] == nil || len(verdicts[i].Leak) > 0 {
+			continue
+		}
+		var wires []int
+		written := map[int]bool{}
+		for k, e := range tr.Events {
+			if e.E == "wire" && e.B == "msg" {
+				wires = append(wires, k)
+				written[e.A] = true
+			}
+		}
+		if !have["nego"] && len(tr.Events) > 0 {
+			c := clone(tr)
+			c.Events[len(c.Events)-1].A++
+			controls, names = append(controls, c), append(names, "nego")
+			have["nego"] = true
+		}
+		if !have["done"] {
+			for k, e := range tr.Events {
+				if e.E == "done" && written[e.A] {
+					c := clone(tr)
+					c.Events = append(c.Events[:k:k], c.Events[k+1:]...)
+					controls, names = append(controls, c), append(names, "done")
+					have["done"] = true
+					break
+				}
+			}
+		}
+		if !have["fifo"] && len(wires) >= 2 {
+			c := clone(tr)
+			a, b := wires[0], wires[1]
+			c.Events[a], c.Events[b] = c.Events[b], c.Events[a]
+			controls, names = append(controls, c), append(names, "fifo")
+			have["fifo"] = true
+		}
+		if len(have) == 3 {
+			break
+		}
+	}
+	if len(controls) == 0 {
+		return fmt.Errorf("negative controls: no accepted trace to corrupt")
+	}
+	errs := make([]error, len(controls))
+	var wg sync.WaitGroup
+	for i := range controls {
+		wg.Add(1)
+		go func(i int) {
+			defer wg.Done()
+			br, _, err := validateBatch(ctx, controls[i:i+1], false)
+			if err != nil {
+				errs[i] = err
+				return
+			}
+			if _, ok := br.accepted[0]; ok {
+				errs[i] = fmt.Errorf("negative control %q: TracePeer accepted a corrupted trace (%s): the binding is vacuous", names[i], eventsString(controls[i].Events))
+			}
+		}(i)
+	}
+	wg.Wait()
+	for _, e := range errs {
+		if e != nil {
+			return e
+		}
+	}
+	ctx.AddEval(int64(len(controls)))
+	ctx.SetExtra("negative_controls_rejected", names)
 	return nil
 }
 
